@@ -11,6 +11,11 @@ class Unknown(Exception):
     pass
 
 
+class Undefined(Unknown):
+    """the expression has undefined behaviour for this input (shift count out of range)"""
+    pass
+
+
 def wrap(v, t):
     if not t or t.get("k") not in ("int", "bool", "enum") or not t.get("w"):
         return v
@@ -97,10 +102,11 @@ def ev(f, e, env, locals_=None, depth=0):
             r = a | b
         elif op == "^":
             r = a ^ b
-        elif op == "<<":
-            r = a << b
-        elif op == ">>":
-            r = a >> b
+        elif op in ("<<", ">>"):
+            w_ = (t or {}).get("w") or 32
+            if b < 0 or b >= w_:
+                raise Undefined("`%s` shifts a %d-bit value by %d" % (facts.expr_str(e)[:60], w_, b))
+            r = (a << b) if op == "<<" else (a >> b)
         elif op == "<":
             return 1 if a < b else 0
         elif op == ">":
